@@ -211,9 +211,16 @@ class RefVM:
         except Exception as e:  # noqa
             raise OutOfDomain("formatting raises " + type(e).__name__)
 
-    def emit(self, v, end="\n"):
+    def emit(self, v, end="\n", stack=None):
         self.effect("print")
         self.printed = True
+        if isinstance(v, Fn) and stack is not None:
+            # (R12) printing a function value calls it on the current stack, as the call element would, and prints the result
+            # with a newline (the `end` of the printing element is not passed on)
+            self.call_from_stack(v, stack)
+            res = stack.pop()
+            self.emit(res, "\n", stack)
+            return
         self.out.append(self.fmt(v) + end)
 
     # ------------------------------------------------------------ calls
@@ -511,13 +518,13 @@ class RefVM:
         elif k == "?":
             st.append(self.explicit_input())
         elif k == ",":
-            self.emit(self.pop1(st))
+            self.emit(self.pop1(st), stack=st)
         elif k == "…":
             v = self.pop1(st)
-            self.emit(v)
+            self.emit(v, stack=st)
             st.append(v)
         elif k == "₴":
-            self.emit(self.pop1(st), end="")
+            self.emit(self.pop1(st), end="", stack=st)
         elif k == "£":
             self.effect("register write")
             self.register = self.pop1(st)
@@ -701,7 +708,7 @@ class RefVM:
                         raise OutOfDomain("printing a function value")
                     output = E.vy_str(self.listify(list(stack)), self.elctx)
         if not (self.printed or "O" in flags) or "o" in flags:
-            self.emit(output)
+            self.emit(output, stack=stack)
         return "".join(self.out)
 
     def element_generic(self, fn, *args):
